@@ -8,6 +8,8 @@ CONSTANTS
   MaxIntents = 1
   TxnId = {"t1"}
   WithFaults = FALSE
+  FailKinds = {"none"}
+  TmoKinds = {"short"}
   WithLifecycle = FALSE
   InitDevice <- ChoiceInit
 VIEW view
